@@ -1,4 +1,112 @@
-/- Model driver for C11 (stub: not built yet). -/
+/-
+Model driver for C11.  One history per line:
+
+  H <variant> <relmask> <memmask> <cb> <maxbuf> <wr> <fixed> | R <id> <content> <k><ref> ... | ...
+      | O <k> <id> <content> | Q <k> <id> <hint> | F | ... | E
+
+  variant  : subset of the letters n w r (TNodes/TWays/TRelations) or `mp` (MultipolygonManager)
+  relmask  : new_relation(r)  = bit (content mod 4) of relmask
+             (mp: content mod 4 ∈ {0,1}, i.e. type=multipolygon|boundary, and some way member)
+  memmask  : new_member(r,m,n) = bit ((|ref| + n) mod 8) of memmask   (mp: always true)
+  k        : n | w | r
+
+Output: the events in order, then the incomplete list, database counts, flush statistics:
+  C <rid> <k><ref>=<res>,...   N <k><id>   Q <k><id>=<res>   T
+  I <rid>,...   S <live rels>/<rels> n=<t>/<a>/<r> w=... r=...   F <flushes> <flushed> <left>   U<ub>
+  res : `-` nullptr | `<id>:<content>:1` live object | `W` wild pointer
+-/
+import Osmium.Model.RelMgr
 import Driver.Common
 
-def main : IO Unit := pure ()
+open Osmium.RelMgr Osmium.Order Driver
+
+def parseKind : Char → Option Kind
+  | 'n' => some .node
+  | 'w' => some .way
+  | 'r' => some .relation
+  | _ => none
+
+def kindStr : Kind → String
+  | .node => "n"
+  | .way => "w"
+  | .relation => "r"
+
+def parseMember (s : String) : Option Member :=
+  match s.toList with
+  | c :: rest => do
+    let k ← parseKind c
+    let ref ← (String.ofList rest).toInt?
+    some ⟨k, ref⟩
+  | [] => none
+
+def splitSections (ws : List String) : List (List String) :=
+  let rec go : List String → List String → List (List String) → List (List String)
+    | [], cur, acc => (cur.reverse :: acc).reverse
+    | w :: rest, cur, acc => if w == "|" then go rest [] (cur.reverse :: acc) else go rest (w :: cur) acc
+  go ws [] []
+
+def mkCfg (variant : String) (rm mm : Nat) (cb : Bool) (maxbuf wr : Nat) (fixed : Bool) : Cfg :=
+  let mp := variant == "mp"
+  { tn := !mp && variant.contains 'n'
+    tw := mp || variant.contains 'w'
+    tr := !mp && variant.contains 'r'
+    newRel := fun r =>
+      if mp then (r.content % 4 == 0 || r.content % 4 == 1) && r.members.any (fun m => m.kind == .way)
+      else (rm >>> (r.content % 4)) % 2 == 1
+    newMem := fun _ m n => if mp then true else (mm >>> ((m.ref.natAbs + n) % 8)) % 2 == 1
+    hasCallback := cb
+    maxBuf := maxbuf
+    wr := wr
+    fixed := fixed }
+
+def lookupStr : Lookup → String
+  | .absent => "-"
+  | .found o => s!"{o.id}:{o.content}:1"
+  | .wild => "W"
+
+def eventStr : Event → String
+  | .completeWild pos => s!"C? {pos}"
+  | .complete _ rid _ looks =>
+    s!"C {rid} " ++ ",".intercalate (looks.map fun (m, l) => s!"{kindStr m.kind}{m.ref}={lookupStr l}")
+  | .notIn k id => s!"N {kindStr k}{id}"
+  | .query k id res => s!"Q {kindStr k}{id}={lookupStr res}"
+  | .thrown => "T"
+
+def countsStr (es : List Elem) : String :=
+  let (t, a, r) := dbCounts es
+  s!"{t}/{a}/{r}"
+
+def runLine (line : String) : Option String := do
+  let secs := splitSections (words line)
+  match secs with
+  | ("H" :: variant :: rm :: mm :: cb :: maxbuf :: wr :: fixed :: []) :: rest =>
+    let cfg := mkCfg variant (← rm.toNat?) (← mm.toNat?) (cb == "1") (← maxbuf.toNat?) (← wr.toNat?) (fixed == "1")
+    let mut rels : List Rel := []
+    let mut ops : List Op := []
+    for sec in rest do
+      match sec with
+      | "R" :: id :: content :: ms =>
+        let members ← ms.mapM parseMember
+        rels := { id := ← id.toInt?, content := ← content.toNat?, members := members } :: rels
+      | ["O", k, id, content] =>
+        let k ← parseKind (k.toList.headD ' ')
+        ops := .obj ⟨k, ← id.toInt?, ← content.toNat?⟩ :: ops
+      | "Q" :: k :: id :: _ =>
+        let k ← parseKind (k.toList.headD ' ')
+        ops := .query k (← id.toInt?) :: ops
+      | ["F"] => ops := .flush :: ops
+      | ["E"] => pure ()
+      | [] => pure ()
+      | _ => none
+    let s := run cfg rels.reverse ops.reverse
+    -- MultipolygonManager does not override *_not_in_any_relation: nothing to observe there
+    let evs := (s.events.filter fun e => match e with | .notIn .. => variant != "mp" | _ => true).map eventStr
+    let tail := [
+      "I " ++ (if s.incomplete.isEmpty then "-" else ",".intercalate (s.incomplete.map toString)),
+      s!"S {s.countRelations}/{s.rdb.size} n={countsStr s.ndb} w={countsStr s.wdb} r={countsStr s.rmdb}",
+      s!"F {s.flushes} {s.flushedBytes} {s.outBytes}",
+      s!"U{b01 s.ub}"]
+    some (" ; ".intercalate (evs ++ tail))
+  | _ => none
+
+def main : IO Unit := loopPure fun line => (runLine line).getD "bad-op"
